@@ -117,7 +117,7 @@ def _counters(ctx):
     for cls in mod.classes.values():
         if node_cls not in index.mro(cls):
             continue
-        for func in cls.methods.values():
+        for func in cls.live_methods():
             if func.name == '__init__':
                 continue
             graph = None
